@@ -1,5 +1,5 @@
 Require Import AS.Base.Prelude AS.Base.Hex AS.Base.Dec AS.Base.Utf8 AS.Base.Layout AS.Gen.Extracted AS.Model.Messages
-  AS.Model.Bridge AS.Proofs.HexSlices AS.Proofs.MessagesProofs AS.Proofs.BridgeProofs.
+  AS.Model.Bridge AS.Spec.Encoders AS.Proofs.HexSlices AS.Proofs.MessagesProofs AS.Proofs.BridgeProofs.
 Open Scope N_scope.
 Ltac Zify.zify_post_hook ::= Z.to_euclidean_division_equations.
 
@@ -13,12 +13,6 @@ Proof.
 Qed.
 Lemma modes_ok : table_ok thermostat_modes = true. Proof. vm_compute. reflexivity. Qed.
 Lemma fans_ok : table_ok fan_levels = true. Proof. vm_compute. reflexivity. Qed.
-
-(* ---- reference encoder of a Breeze broadcast (168 bytes) ---- *)
-Definition breeze_segs (f1 id f2 : bytes) (key : N) (f3 name32 f4 ip mac f5 : bytes) (temp10 : N)
-    (state mode target fanswing : N) (f6 remote f7 : bytes) : list bytes :=
-  [[254; 240]; f1; id; f2; [key]; f3; name32; [14; 1]; f4; ip; mac; f5; le16 temp10;
-   [state]; [mode]; [target]; [fanswing]; f6; remote; f7].
 
 Record breeze_wf (f1 id f2 f3 f4 ip mac f5 f6 remote f7 name : bytes) : Prop :=
   { w_f1 : length f1 = 16%nat; w_id : length id = 3%nat; w_f2 : length f2 = 19%nat; w_f3 : length f3 = 1%nat;
